@@ -488,7 +488,7 @@ CrossVals  == VPrimsAll \cup { T(<< >>), T(<< Fld("a", VInt) >>), T(<< Fld("a", 
 (* ex3: depth 3, narrow *)
 Ex3Names   == << "a", "b" >>
 Ex3PrimsEx == IF Thorough THEN {ExInt, ExStr, ExBool} ELSE {ExInt, ExStr}
-Ex3PrimsV  == IF Thorough THEN {VInt, VStr, VBool} ELSE {VInt, VStr}
+Ex3PrimsV  == {VInt, VStr}
 Ex3Len     == 1
 Ex3MidEx   == Ex3PrimsEx \cup Tuples(Ex3Names, Ex3PrimsEx) \cup Lists(Ex3Len, Ex3PrimsEx)
 Ex3MidVal  == IF Thorough THEN Ex3PrimsV \cup Tuples(Ex3Names, Ex3PrimsV) \cup Lists(Ex3Len, Ex3PrimsV)
